@@ -11,7 +11,7 @@ RULE = ("random interleaved sequences of GetImage / GetInverseImage / GetPreimag
         "array returned earlier is re-compared with its copy after every later operation. Non-trivial: sequence with >= 20 operations including both "
         "directions; distinct = (N, m, sequence index).")
 ASSUMPTIONS = ["a fresh Evolvent object answering a single query is the reference for 'depends only on the argument, bounds and density'"]
-SIZES = {"quick": 400, "thorough": 5000}
+SIZES = {"quick": 800, "thorough": 25000}
 
 
 def cases(tier, seed):
